@@ -1417,6 +1417,8 @@ SPI = SNum(Poly.var(PI.id), False)
 
 
 def real_var(name, pos=False, nonneg=False, lo=None, hi=None, nz=False):
+    lo = Fraction(lo) if isinstance(lo, str) else lo
+    hi = Fraction(hi) if isinstance(hi, str) else hi
     info = {'lo': lo, 'hi': hi, 'nonneg': nonneg}
     if pos:
         info['pos'] = True
